@@ -1,10 +1,10 @@
 /* stream c17: integer PCM path of ov_read (lib/vorbisfile.c, lib/os.h)
    ops:
      case <id>
-     stream <ch> <rate> <q> <n> <sig> <seed>     encode in memory and open with vorbisfile
+     stream <ch> <rate> <q> <n> <sig> <seed> [<ch2> <rate2> <q2> <n2>]   encode in memory (optionally a second link) and open with vorbisfile
      halfrate <0|1>
      skip <frames>                               ov_read_float up to <frames> frames (moves the position)
-     read <word> <sgned> <be> <len> [<hexfloats>]  ov_read_filter; optional injected bit patterns
+     read <word> <sgned> <be> <len> [<hexfloats>|- [np]]  ov_read_filter; optional injected bit patterns; np: no priming read before it
    answer of read:
      read word=.. sgned=.. be=.. len=.. ch=.. avail=.. hs=.. rc=.. adv=.. intact=.. in=<hex> out=<hex>
 */
@@ -44,6 +44,11 @@ static int c17_main(int argc,char **argv){
       P.serial=777; P.chunk=4096;
       stream.n=0;
       rc=mk_encode(&P,&stream);
+      if(!rc&&n>=11){ /* a second link with its own channel count: the boundary is crossed inside a read */
+        mk_params Q; memset(&Q,0,sizeof Q);
+        Q.channels=atoi(tok[7]); Q.rate=atol(tok[8]); Q.quality=atof(tok[9]); Q.n=atol(tok[10]); Q.sig=P.sig; Q.seed=P.seed+1; Q.serial=778; Q.chunk=4096;
+        rc=mk_encode(&Q,&stream);
+      }
       if(rc){ printf("stream enc_rc=%s\n",ovname(rc)); }
       else{
         ms_init(&ms,stream.p,stream.n,1);
@@ -61,14 +66,18 @@ static int c17_main(int argc,char **argv){
       float **pcm; long avail=0; long rc; int bs=-1,hs,ch; ogg_int64_t t0,t1;
       c17_filt F; unsigned char *buf; long alloc=(len>0?len:0)+64,i; int intact=1;
       memset(&F,0,sizeof F);
-      if(n>=6) F.inj=unhex(tok[5]);
-      ov_read_float(&vf,&pcm,0,NULL);           /* prime: fetches packets, consumes nothing */
-      if(vf.ready_state==INITSET) avail=vorbis_synthesis_pcmout(&vf.vd,NULL);
+      int noprime=(n>=7&&!strcmp(tok[6],"np"));
+      if(n>=6&&strcmp(tok[5],"-")) F.inj=unhex(tok[5]);
+      if(!noprime){
+        ov_read_float(&vf,&pcm,0,NULL);           /* prime: fetches packets, consumes nothing */
+        if(vf.ready_state==INITSET) avail=vorbis_synthesis_pcmout(&vf.vd,NULL);
+      }else avail=-1;                              /* the call itself fetches (and may cross into the next link) */
       hs=ov_halfrate_p(&vf); ch=ov_info(&vf,-1)->channels;
       t0=ov_pcm_tell(&vf);
       buf=malloc(alloc); memset(buf,0xAA,alloc);
       rc=ov_read_filter(&vf,(char*)buf,(int)len,be,word,sgned,&bs,c17_filter,&F);
       t1=ov_pcm_tell(&vf);
+      if(noprime&&rc>0&&bs>=0&&bs<ov_streams(&vf)) ch=ov_info(&vf,bs)->channels;   /* the link the data came from, as reported by the call */
       for(i=(rc>0?rc:0);i<alloc;i++) if(buf[i]!=0xAA){ intact=0; break; }
       printf("read word=%d sgned=%d be=%d len=%ld ch=%d avail=%ld hs=%d rc=%s adv=%lld intact=%d in=",
              word,sgned,be,len,ch,avail,hs,ovname(rc),(long long)(t1-t0),intact);
